@@ -397,3 +397,319 @@ Proof.
   - destruct h; [discriminate|]. discriminate.
   - apply fromhex_bytes_hex. exact Hok.
 Qed.
+
+(* ------------------------------------------------------------------ *)
+(* GF(2)-linearity: pointwise xor of byte / sextet lists               *)
+
+Fixpoint xorl (xs ys : list N) : list N :=
+  match xs, ys with
+  | x :: xs', y :: ys' => N.lxor x y :: xorl xs' ys'
+  | _, _ => []
+  end.
+
+Lemma xorl_nil_r xs : xorl xs [] = [].
+Proof. destruct xs; reflexivity. Qed.
+
+Lemma xorl_length xs : forall ys, length xs = length ys -> length (xorl xs ys) = length xs.
+Proof.
+  induction xs as [|x xs IH]; intros [|y ys] H; cbn [length] in H; try discriminate; [reflexivity|].
+  cbn [xorl length]. rewrite IH by lia. reflexivity.
+Qed.
+
+Lemma xorl_firstn n : forall xs ys, firstn n (xorl xs ys) = xorl (firstn n xs) (firstn n ys).
+Proof.
+  induction n as [|n IH]; intros xs ys; [reflexivity|].
+  destruct xs as [|x xs]; [reflexivity|]. destruct ys as [|y ys]; [reflexivity|].
+  cbn [xorl firstn]. rewrite IH. reflexivity.
+Qed.
+
+Lemma xorl_skipn n : forall xs ys, skipn n (xorl xs ys) = xorl (skipn n xs) (skipn n ys).
+Proof.
+  induction n as [|n IH]; intros xs ys; [reflexivity|].
+  destruct xs as [|x xs]; [reflexivity|].
+  destruct ys as [|y ys]; [cbn [xorl skipn]; rewrite xorl_nil_r; reflexivity|].
+  cbn [xorl skipn]. apply IH.
+Qed.
+
+Lemma xorl_bound k xs : forall ys, Forall (fun v => v < 2 ^ k) xs -> Forall (fun v => v < 2 ^ k) ys ->
+  Forall (fun v => v < 2 ^ k) (xorl xs ys).
+Proof.
+  induction xs as [|x xs IH]; intros [|y ys] Hx Hy; cbn [xorl]; try constructor.
+  - inversion Hx; inversion Hy; subst. apply lxor_bound; assumption.
+  - inversion Hx; inversion Hy; subst. apply IH; assumption.
+Qed.
+
+Lemma xorl_cancel_l a : forall x y, length x = length a -> length y = length a ->
+  xorl a x = xorl a y -> x = y.
+Proof.
+  induction a as [|a0 a IH]; intros [|x0 x] [|y0 y] Hx Hy E; cbn [length] in *; try discriminate.
+  - reflexivity.
+  - cbn [xorl] in E. injection E as E0 E1. f_equal.
+    + rewrite <- (N.lxor_0_l x0), <- (N.lxor_nilpotent a0), N.lxor_assoc, E0,
+        <- N.lxor_assoc, N.lxor_nilpotent, N.lxor_0_l. reflexivity.
+    + apply IH; auto.
+Qed.
+
+(* replacing one element = xor with a one-hot list *)
+Definition unit_vec (i : nat) (dl : N) (n : nat) : list N := repeat 0 i ++ dl :: repeat 0 (n - S i).
+
+Lemma xorl_zero_r xs : xorl xs (repeat 0 (length xs)) = xs.
+Proof.
+  induction xs as [|x xs IH]; [reflexivity|]. cbn [length repeat xorl]. rewrite IH, N.lxor_0_r. reflexivity.
+Qed.
+
+Lemma subst_as_xorl vs : forall i v', (i < length vs)%nat ->
+  firstn i vs ++ v' :: skipn (S i) vs = xorl vs (unit_vec i (N.lxor (nth i vs 0) v') (length vs)).
+Proof.
+  unfold unit_vec. induction vs as [|v vs IH]; intros i v' Hi; cbn [length] in Hi; [lia|].
+  destruct i as [|i].
+  - cbn [firstn skipn app nth repeat length xorl Nat.sub]. rewrite Nat.sub_0_r, xorl_zero_r.
+    f_equal. rewrite <- N.lxor_assoc, N.lxor_nilpotent, N.lxor_0_l. reflexivity.
+  - cbn [firstn skipn app nth repeat length xorl Nat.sub]. rewrite N.lxor_0_r. f_equal.
+    apply IH. lia.
+Qed.
+
+Lemma unit_vec_length i dl n : (i < n)%nat -> length (unit_vec i dl n) = n.
+Proof.
+  intro H. unfold unit_vec. rewrite app_length. cbn [length]. rewrite !repeat_length. lia.
+Qed.
+
+Lemma unit_vec_ok i dl n : dl < 64 -> sx_ok (unit_vec i dl n).
+Proof.
+  intro H. unfold unit_vec, sx_ok. apply Forall_app. split.
+  - apply Forall_forall. intros x Hx. apply repeat_spec in Hx. subst x. reflexivity.
+  - constructor; [exact H|]. apply Forall_forall. intros x Hx. apply repeat_spec in Hx. subst x. reflexivity.
+Qed.
+
+(* bit-level reading of the regrouping done by the decoder *)
+Lemma testbit_small x k n : x < 2 ^ k -> k <= n -> N.testbit x n = false.
+Proof.
+  intros Hx Hn. rewrite <- (N.mod_small x (2 ^ k)) by exact Hx. apply N.mod_pow2_bits_high. exact Hn.
+Qed.
+
+Lemma shift_add_lxor y x k : x < 2 ^ k -> y * 2 ^ k + x = N.lxor (N.shiftl y k) x.
+Proof.
+  intro Hx. rewrite <- N.shiftl_mul_pow2. apply N.add_nocarry_lxor.
+  apply N.bits_inj. intro n. rewrite N.land_spec, N.bits_0.
+  destruct (N.ltb_spec n k).
+  - rewrite N.shiftl_spec_low by assumption. reflexivity.
+  - rewrite (testbit_small x k n Hx) by assumption. apply andb_false_r.
+Qed.
+
+Lemma dq1_bits a b : b < 64 -> a * 4 + b / 16 = N.lxor (N.shiftl a 2) (N.shiftr b 4).
+Proof.
+  intro H. change 4 with (2 ^ 2) at 1. rewrite shift_add_lxor by lia.
+  rewrite (N.shiftr_div_pow2 b 4). reflexivity.
+Qed.
+Lemma dq2_bits b c : c < 64 -> (b mod 16) * 16 + c / 4 = N.lxor (N.shiftl (N.land b 15) 4) (N.shiftr c 2).
+Proof.
+  intro H. change 16 with (2 ^ 4) at 2. rewrite shift_add_lxor by lia.
+  rewrite (N.shiftr_div_pow2 c 2). change 15 with (N.ones 4). rewrite N.land_ones. reflexivity.
+Qed.
+Lemma dq3_bits c d : d < 64 -> (c mod 4) * 64 + d = N.lxor (N.shiftl (N.land c 3) 6) d.
+Proof.
+  intro H. change 64 with (2 ^ 6) at 1. rewrite shift_add_lxor by (change (2 ^ 6) with 64; exact H).
+  change 3 with (N.ones 2). rewrite N.land_ones. reflexivity.
+Qed.
+
+Lemma lxor64 a b : a < 64 -> b < 64 -> N.lxor a b < 64.
+Proof. change 64 with (2 ^ 6). apply lxor_bound. Qed.
+
+Lemma dq1_lin a b a' b' : b < 64 -> b' < 64 ->
+  N.lxor a a' * 4 + N.lxor b b' / 16 = N.lxor (a * 4 + b / 16) (a' * 4 + b' / 16).
+Proof.
+  intros H H'. rewrite !dq1_bits by auto using lxor64. rewrite N.shiftl_lxor, N.shiftr_lxor.
+  apply N.bits_inj. intro n. rewrite !N.lxor_spec. btauto.
+Qed.
+Lemma dq2_lin b c b' c' : c < 64 -> c' < 64 ->
+  (N.lxor b b' mod 16) * 16 + N.lxor c c' / 4 = N.lxor ((b mod 16) * 16 + c / 4) ((b' mod 16) * 16 + c' / 4).
+Proof.
+  intros H H'. rewrite !dq2_bits by auto using lxor64. rewrite N.shiftr_lxor.
+  apply N.bits_inj. intro n. rewrite !N.lxor_spec.
+  destruct (N.ltb_spec n 4).
+  - rewrite !N.shiftl_spec_low by assumption. btauto.
+  - rewrite !N.shiftl_spec_high' by assumption. rewrite !N.land_spec, N.lxor_spec. btauto.
+Qed.
+Lemma dq3_lin c d c' d' : d < 64 -> d' < 64 ->
+  (N.lxor c c' mod 4) * 64 + N.lxor d d' = N.lxor ((c mod 4) * 64 + d) ((c' mod 4) * 64 + d').
+Proof.
+  intros H H'. rewrite !dq3_bits by auto using lxor64.
+  apply N.bits_inj. intro n. rewrite !N.lxor_spec.
+  destruct (N.ltb_spec n 6).
+  - rewrite !N.shiftl_spec_low by assumption. btauto.
+  - rewrite !N.shiftl_spec_high' by assumption. rewrite !N.land_spec, N.lxor_spec. btauto.
+Qed.
+
+Lemma decode_quads_lin k : forall vs ws, length vs = (4 * k)%nat -> length ws = (4 * k)%nat ->
+  sx_ok vs -> sx_ok ws ->
+  b64_decode_quads (xorl vs ws) = xorl (b64_decode_quads vs) (b64_decode_quads ws).
+Proof.
+  induction k as [|k IH]; intros vs ws Lv Lw Ov Ow.
+  - destruct vs; [reflexivity|discriminate].
+  - destruct vs as [|a [|b [|c [|d vs]]]]; cbn [length] in Lv; try lia.
+    destruct ws as [|a' [|b' [|c' [|d' ws]]]]; cbn [length] in Lw; try lia.
+    inversion Ov as [|? ? Ha Ov1]; subst. inversion Ov1 as [|? ? Hb Ov2]; subst.
+    inversion Ov2 as [|? ? Hc Ov3]; subst. inversion Ov3 as [|? ? Hd Ov4]; subst.
+    inversion Ow as [|? ? Ha' Ow1]; subst. inversion Ow1 as [|? ? Hb' Ow2]; subst.
+    inversion Ow2 as [|? ? Hc' Ow3]; subst. inversion Ow3 as [|? ? Hd' Ow4]; subst.
+    cbn [xorl b64_decode_quads].
+    rewrite dq1_lin, dq2_lin, dq3_lin by assumption. rewrite (IH vs ws) by (auto; lia). reflexivity.
+Qed.
+
+Lemma decode_quads_length k : forall vs, length vs = (4 * k)%nat ->
+  length (b64_decode_quads vs) = (3 * k)%nat.
+Proof.
+  induction k as [|k IH]; intros vs Lv.
+  - destruct vs; [reflexivity|discriminate].
+  - destruct vs as [|a [|b [|c [|d vs]]]]; cbn [length] in Lv; try lia.
+    cbn [b64_decode_quads length]. rewrite (IH vs) by lia. lia.
+Qed.
+
+Lemma decode_quads_ok k : forall vs, length vs = (4 * k)%nat -> sx_ok vs -> bytes_ok (b64_decode_quads vs).
+Proof.
+  induction k as [|k IH]; intros vs Lv Ov.
+  - destruct vs; [constructor|discriminate].
+  - destruct vs as [|a [|b [|c [|d vs]]]]; cbn [length] in Lv; try lia.
+    inversion Ov as [|? ? Ha Ov1]; subst. inversion Ov1 as [|? ? Hb Ov2]; subst.
+    inversion Ov2 as [|? ? Hc Ov3]; subst. inversion Ov3 as [|? ? Hd Ov4]; subst.
+    cbn [b64_decode_quads]. constructor; [lia|]. constructor; [lia|]. constructor; [lia|].
+    apply IH; [lia|exact Ov4].
+Qed.
+
+(* CRC-16 (zero initial value) is linear over messages of equal length *)
+Lemma s16_fold_lin xs : forall ys c1 c2, length xs = length ys ->
+  fold_left s16_byte (xorl xs ys) (N.lxor c1 c2) =
+  N.lxor (fold_left s16_byte xs c1) (fold_left s16_byte ys c2).
+Proof.
+  induction xs as [|x xs IH]; intros [|y ys] c1 c2 H; cbn [length] in H; try discriminate; [reflexivity|].
+  cbn [xorl fold_left]. rewrite s16_byte_lin. apply IH. lia.
+Qed.
+
+Lemma be_bytes2 n : be_bytes 2 n = [(n / 256) mod 256; n mod 256].
+Proof. reflexivity. Qed.
+
+Lemma be_bytes2_lin a b : be_bytes 2 (N.lxor a b) = xorl (be_bytes 2 a) (be_bytes 2 b).
+Proof.
+  rewrite !be_bytes2. cbn [xorl]. change 256 with (2 ^ 8).
+  rewrite <- !N.shiftr_div_pow2, <- !N.land_ones, N.shiftr_lxor.
+  f_equal; [|f_equal].
+  - apply N.bits_inj. intro n. rewrite !N.land_spec, !N.lxor_spec, !N.land_spec. btauto.
+  - apply N.bits_inj. intro n. rewrite !N.land_spec, !N.lxor_spec, !N.land_spec. btauto.
+Qed.
+
+Lemma crc16_lin xs ys : bytes_ok xs -> bytes_ok ys -> length xs = length ys ->
+  crc16 (xorl xs ys) = xorl (crc16 xs) (crc16 ys).
+Proof.
+  intros Hx Hy Hl.
+  assert (Hxy : bytes_ok (xorl xs ys)).
+  { unfold bytes_ok in *. change 256 with (2 ^ 8) in *. apply xorl_bound; assumption. }
+  rewrite !crc16_correct by assumption. unfold s_crc16.
+  pose proof (s16_fold_lin xs ys 0 0 Hl) as E. change (N.lxor 0 0) with 0 in E.
+  rewrite E. apply be_bytes2_lin.
+Qed.
+
+(* ------------------------------------------------------------------ *)
+(* finite sweep: no one-sextet error pattern is a CRC-16 codeword      *)
+
+Definition err_rejected (i : nat) (dl : N) : bool :=
+  let e := b64_decode_quads (unit_vec i dl 48) in
+  negb (bytes_eqb (skipn 34 e) (crc16 (firstn 34 e))).
+
+Lemma err_sweep :
+  allb_below 48 (fun i => allb_below 63 (fun k => err_rejected (N.to_nat i) (k + 1))) = true.
+Proof. vm_compute. reflexivity. Qed.
+
+Lemma err_rejected_all i dl : (i < 48)%nat -> dl <> 0 -> dl < 64 -> err_rejected i dl = true.
+Proof.
+  intros Hi H0 H64.
+  assert (Hi' : N.of_nat i < 48) by lia.
+  pose proof (allb_below_spec _ _ err_sweep (N.of_nat i) Hi') as S1. cbv beta in S1.
+  assert (Hd : dl - 1 < 63) by lia.
+  pose proof (allb_below_spec _ _ S1 (dl - 1) Hd) as S2. cbv beta in S2.
+  rewrite Nat2N.id in S2. replace (dl - 1 + 1) with dl in S2 by lia. exact S2.
+Qed.
+
+(* ------------------------------------------------------------------ *)
+(* the checksum is enforced                                            *)
+
+Lemma is_b64_reject s D : b64decode s = Ok D -> skipn 34 D <> crc16 (firstn 34 D) ->
+  exists e, is_b64 s = Err e.
+Proof.
+  intros Hd Hne. unfold is_b64. rewrite Hd. destruct D as [|tag D0]; [eexists; reflexivity|].
+  cbv zeta. destruct (bytes_eqb (skipn 34 (tag :: D0)) (crc16 (firstn 34 (tag :: D0)))) eqn:E.
+  - apply bytes_eqb_eq in E. contradiction.
+  - cbn [negb]. eexists. reflexivity.
+Qed.
+
+Lemma Forall_firstn' {A} (P : A -> Prop) n : forall l, Forall P l -> Forall P (firstn n l).
+Proof.
+  induction n as [|n IH]; intros l H; [constructor|].
+  destruct H as [|x l Hx Hl]; cbn [firstn]; constructor; auto.
+Qed.
+
+Lemma Ok_inj {A} (x y : A) : Ok x = Ok y -> x = y.
+Proof. intro H. injection H as H. exact H. Qed.
+
+Lemma nth_map_in {A B} (f : A -> B) l i da db : (i < length l)%nat ->
+  nth i (map f l) db = f (nth i l da).
+Proof.
+  intro H. rewrite (nth_indep (map f l) db (f da)) by (rewrite map_length; exact H). apply map_nth.
+Qed.
+
+Lemma checksum_enforced : forall wc h urlsafe b t s i c',
+  (-128 <= wc <= 127)%Z -> length h = 32%nat -> bytes_ok h ->
+  to_str wc h true urlsafe b t = Ok s -> (i < 48)%nat ->
+  (exists v, v < 64 /\ c' = b64_char urlsafe v) -> nth i s 0 <> c' ->
+  exists e, address_of_str (firstn i s ++ c' :: skipn (S i) s) = Err e.
+Proof.
+  intros wc h u b t s i c' Hwc Hl Hok Hs Hi (v' & Hv' & Hc') Hne.
+  rewrite (to_str_friendly wc h u b t Hwc) in Hs. apply Ok_inj in Hs.
+  set (body := fbody wc h b t) in *.
+  assert (Lb : length body = 34%nat) by (apply fbody_length; exact Hl).
+  assert (Ob : bytes_ok body) by (apply fbody_ok; exact Hok).
+  set (d := body ++ crc16 body) in *.
+  assert (Ld : length d = (3 * 12)%nat).
+  { unfold d. rewrite app_length, Lb, crc16_length. reflexivity. }
+  assert (Od : bytes_ok d).
+  { apply Forall_app. split; [exact Ob|apply crc16_ok]. }
+  rewrite (b64encode_sextets u 12 d Ld) in Hs.
+  set (vs := sextets d) in *.
+  assert (Ls : length vs = 48%nat) by (apply (sextets_length 12 d Ld)).
+  assert (Os : sx_ok vs) by (apply (sextets_ok 12 d Ld Od)).
+  assert (Dv : b64_decode_quads vs = d) by (apply (decode_sextets 12 d Ld Od)).
+  subst s c'.
+  rewrite (nth_map_in (b64_char u) vs i 0 0) in Hne by (rewrite Ls; exact Hi).
+  assert (Hvne : nth i vs 0 <> v') by (intro C; apply Hne; rewrite C; reflexivity).
+  assert (Hvi : nth i vs 0 < 64).
+  { unfold sx_ok in Os. rewrite Forall_forall in Os. apply Os. apply nth_In. rewrite Ls. exact Hi. }
+  set (dl := N.lxor (nth i vs 0) v') in *.
+  assert (Hdl0 : dl <> 0) by (intro C; apply Hvne; apply N.lxor_eq; exact C).
+  assert (Hdl64 : dl < 64) by (apply lxor64; assumption).
+  (* the modified string, as characters of a modified sextet list *)
+  rewrite firstn_map, skipn_map, <- map_cons, <- map_app.
+  rewrite (subst_as_xorl vs i v') by (rewrite Ls; exact Hi). fold dl. rewrite Ls.
+  set (E := unit_vec i dl 48).
+  assert (LE : length E = 48%nat) by (apply unit_vec_length; exact Hi).
+  assert (OE : sx_ok E) by (apply unit_vec_ok; exact Hdl64).
+  assert (Lx : length (xorl vs E) = (4 * 12)%nat) by (rewrite xorl_length; lia).
+  assert (Ox : sx_ok (xorl vs E)).
+  { unfold sx_ok in *. change 64 with (2 ^ 6) in *. apply xorl_bound; assumption. }
+  unfold address_of_str. rewrite (is_hex_nocolon _ (b64_chars_nocolon u _ Ox)).
+  pose proof (b64decode_chars u _ 12 Ox Lx) as Hdec.
+  rewrite (decode_quads_lin 12 vs E) in Hdec by (auto; lia). rewrite Dv in Hdec.
+  set (e := b64_decode_quads E) in *.
+  assert (Le : length e = 36%nat) by (apply (decode_quads_length 12); exact LE).
+  assert (Oe : bytes_ok e) by (apply (decode_quads_ok 12); [exact LE|exact OE]).
+  destruct (is_b64_reject _ _ Hdec) as [er Her]; [|rewrite Her; eexists; reflexivity].
+  rewrite xorl_skipn, xorl_firstn. unfold d.
+  rewrite (skipn_app_exact 34 body _ Lb), (firstn_app_exact 34 body _ Lb).
+  assert (Lf : length (firstn 34 e) = 34%nat) by (rewrite firstn_length, Le; reflexivity).
+  assert (Of : bytes_ok (firstn 34 e)).
+  { apply Forall_firstn'. exact Oe. }
+  rewrite (crc16_lin body (firstn 34 e) Ob Of) by (rewrite Lb, Lf; reflexivity).
+  intro C. apply xorl_cancel_l in C.
+  - pose proof (err_rejected_all i dl Hi Hdl0 Hdl64) as R. unfold err_rejected in R. cbv zeta in R.
+    fold E in R. fold e in R. rewrite C, bytes_eqb_refl in R. discriminate.
+  - rewrite skipn_length, Le, crc16_length. reflexivity.
+  - rewrite !crc16_length. reflexivity.
+Qed.
